@@ -16,6 +16,7 @@ package internal
 
 import (
 	"encoding/json"
+	"errors"
 	"fmt"
 	"log/slog"
 	"net/http"
@@ -46,6 +47,8 @@ func NewResponseCache(cache Cache) *responseCache {
 }
 
 var _ ResponseCache = (*responseCache)(nil)
+
+var errNilRef = errors.New("null response reference")
 
 type CacheError struct {
 	Op      string
@@ -114,6 +117,16 @@ func (r *responseCache) GetRefs(urlKey string) (ResponseRefs, error) {
 			"GetRefs",
 			fmt.Sprintf("failed to unmarshal cached refs for key %q", urlKey),
 		)
+	}
+	for _, ref := range refs {
+		if ref == nil {
+			// e.g. a stored value of "[null]": treat as corrupted, not as a hit
+			return nil, newCacheError(
+				errNilRef,
+				"GetRefs",
+				fmt.Sprintf("cached refs for key %q contain a null entry", urlKey),
+			)
+		}
 	}
 	return refs, nil
 }
